@@ -501,6 +501,10 @@ impl Monitor for Threads {
                         }
                     }
                     Kind::FastIn | Kind::FastOut => c.ratio *= 1.3,
+                    _ if rng.chance(0.4) => {
+                        // the mirror image: same pair of rates, opposite direction
+                        std::mem::swap(&mut c.fs_in, &mut c.fs_out);
+                    }
                     _ => {
                         // same input block, different output rate (both coprime to a prime input rate)
                         let p_in = *rng.pick(&[7usize, 11, 13, 31, 101, 127]);
